@@ -124,9 +124,10 @@ def prove_identity(int_hyps, real_hyps, rules, lhs, rhs):
   log = set()
   terms = []
   for t in (lhs, rhs):
-    t = nra.resolve_ifs(z3.simplify(t), int_hyps)
+    # guards of the form `denominator == 0` (numpy's guarded division) are decided with the real facts as well
+    t = nra.resolve_ifs(z3.simplify(t), list(int_hyps) + list(real_hyps))
     t = _rewrite(t, rules, int_hyps, log)
-    t = nra.resolve_ifs(t, int_hyps)
+    t = nra.resolve_ifs(t, list(int_hyps) + list(real_hyps))
     if _has_ite(t):
       return smt.Verdict('unknown', reason='an If is not decided by the index facts of this case', seconds=time.time() - t0)
     terms.append(t)
